@@ -6,7 +6,7 @@ use identity_core::convert::{FromJson, ToJson};
 use identity_iota_core::{Error as IErr, IotaDID, IotaDocument, StateMetadataDocument};
 use serde_json::{json, Map, Value};
 
-const DIDS: [(i64, &str); 10] = [
+const DIDS: [(i64, &str); 11] = [
   (0, "did:0:0"),
   (1, "did:iota:0x1111111111111111111111111111111111111111111111111111111111111111"),
   (2, "did:iota:0x2222222222222222222222222222222222222222222222222222222222222222"),
@@ -16,6 +16,8 @@ const DIDS: [(i64, &str); 10] = [
   // foreign DIDs that share the 32-byte tag of DID 1 / DID 2 but live on another network
   (6, "did:iota:smr:0x1111111111111111111111111111111111111111111111111111111111111111"),
   (7, "did:iota:rms:0x2222222222222222222222222222222222222222222222222222222222222222"),
+  // a NON-normal spelling of DID 1 (explicit default network): as a CoreDID inside the document it is a different, foreign DID
+  (8, "did:iota:iota:0x1111111111111111111111111111111111111111111111111111111111111111"),
   (10, "did:example:abc"),
   (11, "did:web:example.com"),
 ];
@@ -224,7 +226,7 @@ fn case2(data: &[u8]) -> Vec<i64> {
 }
 
 fn gen_doc(rng: &mut Rng, self_did: i64) -> D {
-  let dids = [self_did, self_did, 2, 5, 6, 7, 10, 11];
+  let dids = [self_did, self_did, 2, 5, 6, 7, 8, 10, 11];
   let mut d = D { id: self_did, ..Default::default() };
   d.ctrl = match rng.below(5) { 0 => vec![], 1 => vec![self_did], 2 => vec![self_did, 2], 3 => vec![2, 5], _ => vec![4, self_did, 5] };
   let mut u = |rng: &mut Rng| U { d: *rng.pick(&dids), r: if rng.chance(1, 8) { rng.range(1, 2) } else { 0 }, f: rng.range(0, 3) };
@@ -253,6 +255,7 @@ pub fn gen(rng: &mut Rng, thorough: bool, sink: &mut Sink) {
   shapes.push(D { id: 1, vm: vec![M { u: su(1, 1), c: 1, x: 1 }], svc: vec![(su(2, 11), 2), (su(5, 11), 3), (su(1, 11), 1)], ..Default::default() });
   shapes.push(D { id: 1, rels: [vec![], vec![E::Embed(M { u: su(1, 5), c: 1, x: 4 }), E::Embed(M { u: su(2, 5), c: 2, x: 5 })], vec![], vec![], vec![]], ..Default::default() });
   shapes.push(D { id: 1, rels: [vec![], vec![], vec![], vec![], vec![E::Refer(su(1, 9)), E::Refer(su(2, 9))]], ..Default::default() });
+  shapes.push(D { id: 1, ctrl: vec![8], vm: vec![M { u: su(8, 1), c: 8, x: 1 }, M { u: su(1, 1), c: 1, x: 2 }], svc: vec![(su(8, 11), 1)], ..Default::default() });
   for d in &shapes { for tgt in [1i64, 2, 3, 4, 5] { if let Some(c) = case1(tgt, d, &m0) { sink.case(c, "shape"); } } }
   let n = if thorough { 4000 } else { 500 };
   for i in 0..n {
